@@ -95,7 +95,21 @@ def c13_docs(max_nodes, max_edges):
             yield {'nodes': nl, 'edges': el}
 
 
+def c13_announce_docs():
+    """length-prefixed formats (CBOR): the header of the node list and / or the edge list announces 2^64-1 elements; the
+    format delivers the elements that are there and then reports the end of the input"""
+    for nodes in ([], [[0, {'s': 'n0'}]], [[0, {'s': 'n0'}], [1, {'s': 'n1'}]]):
+        for edges in ([], [[0, 0, {'s': 'e0'}]]):
+            if edges and not nodes:
+                continue
+            for ann in ({'nodes': 'huge'}, {'edges': 'huge'}, {'nodes': 'huge', 'edges': 'huge'}):
+                yield {'nodes': nodes, 'edges': edges, 'announce': ann}
+
+
 def c13_scenarios(flavour, max_nodes, max_edges):
+    for doc in c13_announce_docs():
+        yield (flavour, 'announced-length'), {'flavour': flavour, 'nodes': [], 'steps': [['g_deserialize', doc]],
+                                              'meta': {'family': 'untrusted'}}
     for doc in c13_docs(max_nodes, max_edges):
         kind = 'err-injected' if 'err' in (doc['nodes'], doc['edges']) else 'document'
         yield (flavour, kind), {'flavour': flavour, 'nodes': [], 'steps': [['g_deserialize', doc]],
@@ -115,6 +129,9 @@ def evaluate_c13(prop, scen, obs, ctx):
     declared = {row[0] for row in nodes}
     dangling = [(u, v) for u, v, _ in edges if u not in declared or v not in declared]
     injected = 'err' in (doc['nodes'], doc['edges'])
+    if doc.get('announce'):
+        # the input ends before the announced number of elements: an error, and certainly no panic / abort (checked above)
+        return [(r['result'] == 'err', 'document whose list header announces 2^64-1 elements was accepted', 'announced-length-accepted')]
     if dangling and not injected:
         cs.append((r['result'] == 'err', f'document with an edge naming undeclared key(s) {dangling} was accepted', 'dangling-accepted'))
     if r['result'] != 'ok':
@@ -177,7 +194,7 @@ def run(prop, tier, seed):
         prop, tier, seed, items, evaluate_c13, sig_c13,
         bounds={'node_list_length': 3, 'edge_list_length': 3 if tier == 'quick' else 4,
                 'declared_key_domain': [0, 1], 'endpoint_domain': [0, 1, 2],
-                'shapes': 'each list absent / present / replaced by an element the format reports as an error',
+                'shapes': 'each list absent / present / replaced by an element the format reports as an error; list headers announcing 2^64-1 elements (size_hint of a length-prefixed format; natively a crafted CBOR header)',
                 'symbolic': 'node values, edge values',
                 'outside': 'byte-level truncation and mutation inside serde_json / serde_cbor (what they hand to visit_seq is what is enumerated here)'},
         assumptions=['formats call visit_seq with a SeqAccess yielding at most the two sequences, or an error'],
